@@ -86,6 +86,15 @@ def scenarios():
     objs.append(K.setting(NS, "set0", EDS, {"matchLabels": {"zone": "a"}}, [("main", {"limits": {"cpu": "1"}})], status=""))
     set2 = K.setting(NS, "set0", EDS, {"matchLabels": {"zone": "a"}}, [("main", {"limits": {"cpu": "2"}})], status="valid")
     S["settings_change"] = (objs, [K.reconcile("setting", NS, "set0")] + rounds(3) + [K.apply(set2)] + rounds(3, 1))
+    # a declared migration: the nodes still run the pods of the old DaemonSet, which the replica set adopts and replaces
+    objs = base_store(3, False)
+    for o in objs:
+        if o["kind"] == "ExtendedDaemonSet":
+            o["metadata"].setdefault("annotations", {})[P.A_OLD_DS] = "legacy"
+    objs.append(K.daemonset(NS, "legacy", selector={"matchLabels": {"ds": "legacy"}}))
+    for i in range(3):
+        objs.append(K.pod(NS, "legacy-n%d" % i, node="n%d" % i, labels={"ds": "legacy"}, ds_owner="legacy", ready=True))
+    S["migration"] = (objs, rounds(5))
     return S
 
 
@@ -105,11 +114,11 @@ def mk_case(name, objs, prefix, fault, tail=TAIL):
 
 
 # writes of the failure-free prefix per scenario, measured once (upper bounds; a k beyond the run is a no-op)
-MAXK = {"first_deployment": 14, "rolling_update": 34, "canary_start": 24, "promotion": 40, "failure_rollback": 40,
+MAXK = {"migration": 22, "first_deployment": 14, "rolling_update": 34, "canary_start": 24, "promotion": 40, "failure_rollback": 40,
         "node_removal": 30, "settings_change": 30}
 # writes of the ExtendedDaemonSet controller in the failure-free run (on the ExtendedDaemonSet, replica-set creation and
 # deletion): few, and each sits between two others of a multi-write protocol - all of them get all four fault kinds
-MAXCTL = {"first_deployment": 5, "rolling_update": 12, "canary_start": 8, "promotion": 13, "failure_rollback": 11,
+MAXCTL = {"migration": 5, "first_deployment": 5, "rolling_update": 12, "canary_start": 8, "promotion": 13, "failure_rollback": 11,
           "node_removal": 6, "settings_change": 7}
 KINDS = ["reject", "lost", "stop_before", "stop_after"]
 
@@ -131,6 +140,21 @@ def generate(rng, tier, stats):
             for kind in KINDS:
                 out.append(mk_case(name, objs, prefix, {"k": k, "kind": kind, "on": "control"}))
                 wprop.bump(stats, "fault kind (ExtendedDaemonSet controller write)", kind)
+        # faults on the read side: a List (or, in the migration, the Get of the old DaemonSet) of one reconcile of the
+        # prefix fails - nothing may be decided on what was not read
+        recs = [i for i, o in enumerate(prefix) if o.get("op") == "reconcile" and o.get("ctrl") in ("eds", "ers")]
+        for j, i in enumerate(recs):
+            if tier == "quick" and j % 4 != (len(name) % 4):
+                continue
+            ctrl = prefix[i]["ctrl"]
+            kinds = ([{"list_fail": ["ExtendedDaemonSetReplicaSet"]}, {"list_fail": ["Pod"]}, {"list_fail": ["Node"]}] if ctrl == "eds" else
+                     [{"list_fail": ["Pod"]}, {"list_fail": ["Node"]}] + ([{"get_fail": ["DaemonSet"]}] * 2 if name == "migration" else []))
+            for f in (kinds if tier != "quick" else [kinds[j % len(kinds)]] + ([{"get_fail": ["DaemonSet"]}] if name == "migration" and ctrl == "ers" else [])):
+                c = mk_case(name, objs, prefix, None)
+                c["ops"][i]["faults"] = dict(f)
+                c["read_fault"] = True
+                out.append(c)
+                wprop.bump(stats, "fault on a read", "%s %s" % (ctrl, sorted(f.items())[0]))
         wprop.bump(stats, "scenarios", name)
     return out
 
@@ -168,7 +192,7 @@ def encode(c, r):
     fin = r["out"].get("final") or []
     e = worldenc.find(fin, "ExtendedDaemonSet", NS, EDS)
     proj = projection(fin)
-    if not c.get("global_fault"):
+    if not c.get("global_fault") and not c.get("read_fault"):
         BASELINE[c["scenario"]] = proj
     same = BASELINE.get(c["scenario"]) == proj
     tail = []
@@ -193,7 +217,7 @@ def encode(c, r):
 
 def nontrivial(c, r):
     if not c.get("global_fault"):
-        return True
+        return True      # the baselines and the read faults
     for st in ((r.get("out") or {}).get("steps") or []):
         if st.get("stopped") or any(cl.get("failed") for cl in st.get("calls") or []):
             return True
